@@ -39,6 +39,7 @@ type subject struct {
 	consumable bool // second range over the same subject sees what is left (channels, custom rangers)
 	unordered  bool
 	gaps       []int // virtual seconds before each send (channels), last = before close
+	prelude    string // declared by the program itself, at its very beginning (ints() kept in a variable)
 }
 
 // what a nil interface value renders as (fmt's "<nil>", auto-escaped)
@@ -154,6 +155,7 @@ type c5mixed struct {
 	name  string
 	a     string
 	elems []*subject
+	iface bool // the list is a []interface{} (the Rangers arrive wrapped in interface values), not a []jet.Ranger
 }
 
 // c5json: JSON-like data - a []interface{} whose elements are slices and one-entry maps (of strings
@@ -213,7 +215,7 @@ func (g *c5gen) newSubject() *subject {
 		return &subject{name: fmt.Sprintf("x%d", id), expr: fmt.Sprintf("x%d", id), kind: kind, index: true}
 	}
 	var s *subject
-	kinds := []string{"slice-string", "slice-int", "slice-iface", "array", "array-zero", "ints", "map1", "mapN", "ranger-idx", "ranger-plain", "ptr-slice", "ranger-chan-typed", "ranger-slice-typed"}
+	kinds := []string{"slice-string", "slice-int", "slice-iface", "array", "array-zero", "ints", "ints-var", "map1", "mapN", "ranger-idx", "ranger-plain", "ptr-slice", "ranger-chan-typed", "ranger-slice-typed"}
 	if g.useChan {
 		kinds = append(kinds, "chan", "chan", "chan", "chan-iface")
 	}
@@ -243,6 +245,16 @@ func (g *c5gen) newSubject() *subject {
 		from := t.Range(0, 3)
 		cnt := t.Range(1, 4) // ints() rejects empty ranges by documented design
 		s = &subject{expr: fmt.Sprintf("ints(%d, %d)", from, from+cnt), kind: k, index: true}
+		for i := 0; i < cnt; i++ {
+			s.elems = append(s.elems, elem{fmt.Sprint(i), fmt.Sprint(from + i)})
+		}
+	case "ints-var":
+		// the result of ints() kept in a variable and ranged over like any other value - also twice
+		from := t.Range(0, 3)
+		cnt := t.Range(1, 4)
+		s = mk(k)
+		s.consumable = true
+		s.prelude = fmt.Sprintf("{{%s := ints(%d, %d)}}", s.name, from, from+cnt)
 		for i := 0; i < cnt; i++ {
 			s.elems = append(s.elems, elem{fmt.Sprint(i), fmt.Sprint(from + i)})
 		}
@@ -365,8 +377,7 @@ func (g *c5gen) stmt(depth int) c5node {
 			g.nVar++
 			r.a = fmt.Sprintf("a%d", g.nVar)
 			r.b = fmt.Sprintf("b%d", g.nVar)
-			// '=' form: not over ints() (its values alias the ranger's counters: C07's business)
-			r.assign = g.t.Choose(4) == 3 && r.s.kind != "ints" && !r.s.unordered // after a multi-entry map the last binding depends on map order
+			r.assign = g.t.Choose(4) == 3 && !r.s.unordered // after a multi-entry map the last binding depends on map order
 			// ':=' may reuse (shadow) names that are visible here, e.g. those of an enclosing range
 			if !r.assign && len(g.vis) > 0 && g.t.Choose(3) == 2 {
 				r.a = g.vis[g.t.Choose(len(g.vis))]
@@ -446,6 +457,7 @@ func (g *c5gen) stmt(depth int) c5node {
 			}
 			m.elems = append(m.elems, sub)
 		}
+		m.iface = g.t.Bool(1, 2)
 		g.mixed = append(g.mixed, m)
 		return m
 	case 9:
@@ -840,9 +852,8 @@ func c5vars(subs []*subject, mixed []*c5mixed, ifaces []*c5iface, jsons []*c5jso
 		vm.Set(f.name, list)
 	}
 	for _, m := range mixed {
-		// a []jet.Ranger: elements are index-providing and index-less custom Rangers. (A Ranger inside
-		// a []interface{} is not recognised by jet - the Implements check looks at the static element
-		// type before unwrapping - observed, not judged here.)
+		// a []jet.Ranger, or a []interface{} holding the same: elements are index-providing and
+		// index-less custom Rangers
 		var list []jet.Ranger
 		for _, sub := range m.elems {
 			var vals []string
@@ -855,7 +866,15 @@ func c5vars(subs []*subject, mixed []*c5mixed, ifaces []*c5iface, jsons []*c5jso
 				list = append(list, &plainRanger{items: vals})
 			}
 		}
-		vm.Set(m.name, list)
+		if m.iface {
+			var wrapped []interface{}
+			for _, r := range list {
+				wrapped = append(wrapped, r)
+			}
+			vm.Set(m.name, wrapped)
+		} else {
+			vm.Set(m.name, list)
+		}
 	}
 	vm.Set("cT", true).Set("cF", false).Set("zi", 0).Set("pi", 5).Set("zf", 0.0).Set("pf", 1.5)
 	vm.Set("zs", "").Set("ns", "x").Set("s0", "0")
@@ -996,6 +1015,9 @@ func RunC05(env *sim.Env) {
 	g := &c5gen{t: t, useChan: t.Choose(4) == 3, useTry: t.Choose(3) == 2, budget: 14 + 6*t.Choose(3)}
 	prog := g.list(0, 4)
 	var sb strings.Builder
+	for _, sub := range g.subs {
+		sb.WriteString(sub.prelude)
+	}
 	sb.WriteString("^{{.}};")
 	c5src(&sb, prog)
 	sb.WriteString("${{.}};")
